@@ -588,7 +588,8 @@ ERROR_REPLAYS = {"single.diag": (replay_diag, {"m": 2}), "single.": (replay_eule
 
 
 def main(tier):
-    bounds = {"euler": "<= 2 steps (quick) / 3 (thorough), state and driver dimension <= 2, constant / diag(x) / affine coefficient functions, arbitrary driver paths and drifts",
+    bounds = {"histories_and_variants": 'time-dependent coefficient A0 + A2 t (1x1, 2 steps) for the single and the coupled scheme',
+              "euler": "<= 2 steps (quick) / 3 (thorough), state and driver dimension <= 2, constant / diag(x) / affine coefficient functions, arbitrary driver paths and drifts",
               "df": "<= 2 (quick) / 3 (thorough) rates, arbitrary increasing tenors, rates >= 0, 0 <= t1 < t2 <= last tenor",
               "outside": "the Libor drift term (dblquad of the copula derivative), LiborSDEFunction / ForwardMarketSDEFunction sigma(t) schedules, epsilon = h^BG passed to the driver"}
     return run_check(PID, tier, harnesses(tier), expect=EXPECT, attempted=ATTEMPTED, error_replays=ERROR_REPLAYS, bounds=bounds,
